@@ -122,6 +122,10 @@ def apply_call(optic, op, a):
         if optic.aperture is None:
             optic.set_aperture("EPD", 1.0)
         optic.scale_system(a["v"])
+    elif op == "insert_surface":
+        optic.add_surface(index=a["i"] - 1, is_stop=bool(a["stop"]))
+    elif op == "remove_surface":
+        optic.surface_group.remove_surface(a["i"] - 1)
     elif op == "save_load":
         from optiland.optic import Optic
         if a["how"] == "dict":
@@ -144,6 +148,12 @@ def abstract(optic):
     """Abstract state (spec integers/tokens) of the real lens, or a dict with
     key 'unrepresentable' naming the first field that has left the grid."""
     p = P.project(optic)
+    res = _abstract(p)
+    res["_raw"] = p
+    return res
+
+
+def _abstract(p):
     surf = []
     for j, s in enumerate(p["surf"]):
         rec = {}
@@ -176,6 +186,22 @@ def abstract(optic):
 
 def diff_state(exp, got):
     """First difference between the spec state and the abstract code state."""
+    if exp.get("tainted"):
+        # after insertion in the middle / removal only count, stop flags and wavelengths are specified
+        p = got.get("_raw")
+        if p is None:
+            return "no raw projection"
+        if len(exp["surf"]) != len(p["surf"]):
+            return "surface count %d vs %d" % (len(exp["surf"]), len(p["surf"]))
+        es = [s["stop"] for s in exp["surf"]]
+        gs = [s["stop"] for s in p["surf"]]
+        if es != gs:
+            return "stop flags: spec %r code %r" % (es, gs)
+        ew = [w["primary"] for w in exp["wl"]]
+        gw = [w["primary"] for w in p["wl"]]
+        if ew != gw:
+            return "primary flags: spec %r code %r" % (ew, gw)
+        return None
     if "unrepresentable" in got:
         return got["unrepresentable"]
     if len(exp["surf"]) != len(got["surf"]):
